@@ -81,7 +81,9 @@ fn rewrites(spec: &CmdSpec, argv: &[Vec<u8>]) -> Vec<(String, Vec<Vec<u8>>)> {
             match o.how {
                 How::LongEq => {
                     let v = &o.raw[0];
-                    if one(&o.id) && !flag_shaped(v) && v != b"--" && !a.map(|a| a.require_equals).unwrap_or(false) {
+                    // a number-shaped value may be detached when the option allows negative numbers
+                    let neg_ok = a.map(|a| a.allow_negative_numbers).unwrap_or(false) && r1::number_shaped(v);
+                    if one(&o.id) && (!flag_shaped(v) || neg_ok) && v != b"--" && !a.map(|a| a.require_equals).unwrap_or(false) {
                         out.push(("--o=v -> --o v".into(), splice(i, 1, vec![format!("--{}", o.key).into_bytes(), v.clone()])));
                     }
                 }
@@ -510,12 +512,15 @@ fn main() {
     for c in conv::hyphen_configs() {
         if c.name.starts_with("posorder:") {
             blocks.push((c, tier.pick(4usize, 5usize)));
+        } else if c.name.starts_with("negnum:") {
+            // attached and detached spellings of a negative-number value
+            blocks.push((c, tier.pick(3usize, 4usize)));
         }
     }
     par_blocks(blocks.len(), |bi, _| {
         let (cv, l) = &blocks[bi];
         let Ok(cmd) = build_valid(&cv.spec) else { return };
-        let alpha = if cv.name.starts_with("posorder:") { conv::hyphen_alphabet() } else { conv::alphabet(&cv.spec) };
+        let alpha = if cv.name.starts_with("posorder:") || cv.name.starts_with("negnum:") { conv::hyphen_alphabet() } else { conv::alphabet(&cv.spec) };
         let mut h = Hist::new();
         let mut argv: Vec<Vec<u8>> = vec![];
         let mut idx = 0u64;
